@@ -97,9 +97,23 @@ class Asn1Anchors:
         if ex is None:
             raise AnalysisError("ASN1Writer.__exit__ not found")
         ps = module_callees(model, ex)
+        if len(ps) > 1:
+            # several helpers: the packing routine is the one whose result is handed to the parent's buffer
+            flushed: List[FuncInfo] = []
+            binds = {t_.id: a.value for a in ast.walk(ex.node) if isinstance(a, ast.Assign) for t_ in a.targets if isinstance(t_, ast.Name)}
+            for c in ast.walk(ex.node):
+                if isinstance(c, ast.Call) and isinstance(c.func, ast.Attribute) and c.func.attr == "extend" and c.args:
+                    v = c.args[0]
+                    v = binds.get(v.id, v) if isinstance(v, ast.Name) else v
+                    if isinstance(v, ast.Call) and isinstance(v.func, ast.Name):
+                        q = model.resolve_name(ex.module, v.func.id)
+                        if q in model.functions and model.functions[q] in ps and model.functions[q] not in flushed:
+                            flushed.append(model.functions[q])
+            ps = flushed
         if len(ps) != 1:
-            raise AnalysisError("ASN1Writer.__exit__ does not call exactly one TLV packing routine")
+            raise AnalysisError("ASN1Writer.__exit__ does not hand the result of exactly one TLV packing routine to the parent writer")
         self.packer = ps[0]
+        self.exit_method = ex
         self.packer_family = reachable(model, self.packer)
         self.number_writers = self._number_consumers()
         self.octet_number_writer = self.number_writers[-1] if self.number_writers else None
